@@ -112,6 +112,10 @@ def _judge_nums(lp, num, cnt, D, tol):
     """vectorised: exp(lp) * D^cnt == num ?  returns bool tensor of failures"""
     x = lp.double().exp() * (float(D) ** cnt.double())
     bad = (x - num.double()).abs() > tol * num.double().clamp_min(1.0)
+    # probability zero (a chosen token of weight 0) is log-probability MINUS INFINITY, not a large negative number, and a
+    # positive probability has a finite logarithm
+    zero = num == 0
+    bad = bad | (zero & (lp.double() != -float("inf"))) | (~zero & ~torch.isfinite(lp.double()))
     return bad | torch.isnan(x), x
 
 
